@@ -47,6 +47,9 @@ func showMetaGo(c diam.Conn) string {
 	if !ok {
 		return "nometa"
 	}
+	if m == nil { // a context entry without metadata: the gate would take it for a completed handshake
+		return "nilmeta"
+	}
 	var ids []string
 	for _, a := range m.Applications {
 		ids = append(ids, strconv.Itoa(int(a)))
